@@ -180,6 +180,17 @@ class PipeWorld(World):
     def _observe(self, sched, thread, op):
         return self.snapshot()
 
+    def quiescent_state(self):
+        # called by World.run right after the scheduler stopped and BEFORE the threads are unwound: keep
+        # the state of that moment (since 72e39ad service() catches BaseException, hence also the
+        # harness's ThreadKilled, and goes on writing an error response during tear-down)
+        if getattr(self, "end_snapshot", None) is None:
+            try:
+                self.end_snapshot = self.snapshot()
+            except Exception:
+                self.end_snapshot = None
+        return World.quiescent_state(self)
+
 
 # ----------------------------------------------------------------------------
 # the oracle: the response to each request when it is sent alone
@@ -391,7 +402,7 @@ def trace_tokens(world):
         j = bisect.bisect_right(sched_idx, i)
         if j < len(sched_idx):
             return snaps[sched_idx[j]]
-        return world.snapshot()
+        return getattr(world, "end_snapshot", None)
 
     out = []
     gone = False
@@ -867,11 +878,11 @@ EXPECTED_SHAPE = {'_flush_exception': 'if( flush ){ try{ do_close=do_close flush
              '} } None W:request } if( GtE len() ){ break } } } True return',
  'send_continue': 'False R:request .expect_continue= len() with(outbuf_lock){ R:outbufs 1 append() '
                   'R:current_outbuf_count W:current_outbuf_count R:total_outbufs_len W:total_outbufs_len '
-                  'True W:sent_continue do_close=do_close _flush_some() }',
+                  'True W:sent_continue do_close=do_close _flush_exception() }',
  'service': 'R:requests 0 if( .error ){ } else{ } try{ if( and( R:connected , not R:will_close , ) ){ '
             'service() } else{ True .close_on_finish= } } except(ClientDisconnected){ True .close_on_finish= '
-            '} except(Exception){ if( not ){ if( ){ } else{ } .error= .version= try{ } except(KeyError){ } '
-            'try{ service() } except(ClientDisconnected){ True .close_on_finish= } } else{ True '
+            '} except(BaseException){ if( not ){ if( ){ } else{ } .error= .version= try{ } except(KeyError){ '
+            '} try{ service() } except(ClientDisconnected){ True .close_on_finish= } } else{ True '
             '.close_on_finish= } } if( .close_on_finish ){ with(requests_lock){ True W:close_when_flushed '
             'for( R:requests ){ close() } W:requests } } else{ if( R:requests len() Gt 1 ){ '
             '_flush_outbufs_below_high_watermark() } if( R:current_outbuf_count Gt 0 ){ '
